@@ -36,6 +36,41 @@ Proof.
     + intros E _. rewrite (blen_lt_app _ y _ L), (parse_request_append c b y L), E. reflexivity.
 Qed.
 
+(* a body parser answers with a frame or an error, never with need-more *)
+Lemma parse_body_not_need h body : parse_body h body <> DNeedMore.
+Proof.
+  intros E. unfold parse_body in E.
+  repeat match type of E with context[if ?c then _ else _] => destruct c end; try discriminate;
+  unfold parse_get, parse_append_prepend, parse_set, parse_delete, parse_inc_dec, parse_header_only,
+         parse_flush in E;
+  repeat match type of E with
+  | context[if ?c then _ else _] => destruct c
+  | context[match split_to ?n ?l with _ => _ end] => destruct (split_to n l) as [[? ?]|]
+  | context[match get_n ?n ?l with _ => _ end] => destruct (get_n n l) as [[? ?]|]
+  end; discriminate.
+Qed.
+
+Lemma parse_body_not_toolarge h body h' : parse_body h body <> DFrame (ReqTooLarge h').
+Proof.
+  intros E. unfold parse_body in E.
+  repeat match type of E with context[if ?c then _ else _] => destruct c end; try discriminate;
+  unfold parse_get, parse_append_prepend, parse_set, parse_delete, parse_inc_dec, parse_header_only,
+         parse_flush in E;
+  repeat match type of E with
+  | context[if ?c then _ else _] => destruct c
+  | context[match split_to ?n ?l with _ => _ end] => destruct (split_to n l) as [[? ?]|]
+  | context[match get_n ?n ?l with _ => _ end] => destruct (get_n n l) as [[? ?]|]
+  end; discriminate.
+Qed.
+
+Lemma parse_request_not_need c b : c_state c = PHeaderParsed -> snd (parse_request c b) <> DNeedMore.
+Proof.
+  intros S. unfold parse_request. rewrite S.
+  destruct (c_limit c <? h_bodylen (c_hdr c)); [discriminate|].
+  destruct (blen b <? h_bodylen (c_hdr c)); [discriminate|].
+  destruct (split_to _ _) as [[x r]|]; [|discriminate]. cbn. apply parse_body_not_need.
+Qed.
+
 Lemma decode_body_need c b c1 b1 :
   decode_body c b = (c1, b1, DNeedMore) -> c_state c = PHeaderParsed -> c1 = c /\ b1 = b.
 Proof.
